@@ -10,6 +10,9 @@ OUT = B + '/harness'
 os.makedirs(OUT, exist_ok=True)
 cmd = subprocess.check_output(['ninja', '-C', IB, '-t', 'commands', 'lib/icinga/CMakeFiles/icinga.dir/host.cpp.o'], text=True).strip().splitlines()[-1]
 toks = shlex.split(cmd)
+launch = []
+if os.path.basename(toks[0]) == 'ccache':
+    launch = [toks[0]]; toks = toks[1:]
 flags = []
 skip = 0
 for i, t in enumerate(toks[1:]):
@@ -37,7 +40,7 @@ def comp(src):
             except OSError:
                 need = True; break
     if need:
-        r = subprocess.run([toks[0]] + flags + ['-fno-access-control', '-I' + H, '-MD', '-MF', dep, '-o', obj, '-c', src], cwd=IB, capture_output=True, text=True)
+        r = subprocess.run(launch + [toks[0]] + flags + ['-fno-access-control', '-I' + H, '-MD', '-MF', dep, '-o', obj, '-c', src], cwd=IB, capture_output=True, text=True)
         if r.returncode != 0:
             return (src, r.stderr[-6000:])
     return (src, None)
